@@ -210,9 +210,9 @@ impl<'a> Visitor for PpVis<'a> {
                     return Ok(ctx.finish());
                 }
             };
-            let public = V::PublicShare::get_decoded_with_param(vdaf, &pb).map_err(|e| e.to_string())?;
-            let i0 = V::InputShare::get_decoded_with_param(&(vdaf, 0), &ib[0]).map_err(|e| e.to_string())?;
-            let i1 = V::InputShare::get_decoded_with_param(&(vdaf, 1), &ib[1]).map_err(|e| e.to_string())?;
+            let Some(public) = crate::wire::honest_decode(&mut ctx, "PublicShare", V::PublicShare::get_decoded_with_param(vdaf, &pb)) else { return Ok(ctx.finish()) };
+            let Some(i0) = crate::wire::honest_decode(&mut ctx, "InputShare", V::InputShare::get_decoded_with_param(&(vdaf, 0), &ib[0])) else { return Ok(ctx.finish()) };
+            let Some(i1) = crate::wire::honest_decode(&mut ctx, "InputShare", V::InputShare::get_decoded_with_param(&(vdaf, 1), &ib[1])) else { return Ok(ctx.finish()) };
             setups.push(Setup { public, inputs: [i0, i1] });
         }
         let ap = ad.agg_param(&plan.ap)?;
